@@ -218,6 +218,7 @@ func runC06(p *Prog, r *Report) {
 	r.Min("C06.R2", 1)
 	r.Min("C06.R3", 6)
 	r.Min("C06.R4", 6)
+	r.Min("C06.R5", 8)
 	lf, err := p.LayerFacts()
 	if err != nil {
 		r.Undecided("C06.R1", "gopacket/layers", "-", "gopacket layer tables can be loaded from the source the build uses", err.Error())
@@ -243,6 +244,40 @@ func runC06(p *Prog, r *Report) {
 					}
 				}
 			}
+		}
+	}
+	// R5: the receive loop's per-frame contract (C20.R1/R2 re-evaluated) and one receive goroutine per
+	// processor: the processors decode into structs they own, so ProcessPacketData must never run
+	// concurrently with itself
+	sub20 := NewReport("C06", r.Tier)
+	for _, rc := range p.Implementers(modPath+"/pkg/packet", "Receiver", "ReceivePackets") {
+		checkReceiver(p, sub20, rc)
+		okG, whyG := true, ""
+		nGo := 0
+		for _, s := range Paths(rc).Segs {
+			for _, e := range s.Events {
+				if e.Kind == EvGo {
+					nGo++
+					if s.Start != rc.Blocks[0] || s.End != nil && false {
+						okG, whyG = false, "the receive goroutine is started inside a loop: several loops decode into the processor's single set of layer structs concurrently"
+					}
+					if len(LoopHeaders(rc)) > 0 {
+						for h := range LoopHeaders(rc) {
+							if loopBlocks(h)[e.Instr.Block()] {
+								okG, whyG = false, "the receive goroutine is started inside a loop: several loops decode into the processor's single set of layer structs concurrently"
+							}
+						}
+					}
+				}
+			}
+		}
+		r.Check(okG && nGo >= 1, "C06.R5", FuncName(rc)+"/single-goroutine", p.Pos(rc.Pos()), "exactly one goroutine runs the receive loop of a receiver (the processor's decoder structs are not shared between concurrent decodes)", whyG)
+	}
+	for _, o := range sub20.Obs {
+		if o.Rule == "C20.R1" || o.Rule == "C20.R2" {
+			o2 := *o
+			o2.Rule = "C06.R5"
+			r.Obs = append(r.Obs, &o2)
 		}
 	}
 	r.Check(set == "", "C06.R3", "parser/IgnorePanic", "-", "no parser disables gopacket's panic recovery (decoder panics stay errors)", "IgnorePanic set at "+set)
